@@ -246,6 +246,25 @@ class RaisingFieldType(FieldType):
         return super().make_desired_cell_ch_chunks(value, fmt_modifier, field_palette)
 
 
+_FIELD_ENUMS = {}
+
+
+def fields_arg(spec):
+    """the fields= argument in the form the description asks for: a list of str (usual), a tuple, or members of
+    a caller's `class Col(str, Enum)` (each member IS a str equal to the field name)"""
+    names = list(spec["fields"])
+    how = spec.get("fields_as")
+    if how == "tuple":
+        return tuple(names)
+    if how == "strenum":
+        key = tuple(names)
+        if key not in _FIELD_ENUMS:
+            import enum
+            _FIELD_ENUMS[key] = enum.Enum("Col", {f"F{i}": n for i, n in enumerate(names)}, type=str)
+        return list(_FIELD_ENUMS[key])
+    return names
+
+
 class LegendTable(PPTable):
     """a user's table class: the documented line generator is overridden to append a legend"""
 
@@ -310,7 +329,7 @@ def build_object(spec, enums):
         recs = _records(spec)
         kw = {}
         if not spec.get("nt"):
-            kw["fields"] = list(spec["fields"])
+            kw["fields"] = fields_arg(spec)
         if spec.get("types"):
             kw["fields_types"] = {n: enums[i] for n, i in spec["types"].items()}
         if spec.get("wtypes"):
